@@ -70,6 +70,15 @@ class Executor(Evaluator):
         outs = [Outcome('normal', st)]
         for s in stmts:
             nxt = []
+            normals = [o for o in outs if o.kind == 'normal']
+            if isinstance(s, (ast.For, ast.While)) and len(normals) > 1 and self.frame.contract is not None and getattr(self.frame.contract, 'merge_flag', False):
+                # the loop is cut at its invariant anyway: join the incoming paths so that its body is verified once
+                merged = self.merge_states([o.st for o in normals])
+                if merged is not None:
+                    nxt += [o for o in outs if o.kind != 'normal']
+                    nxt += self.ex(s, merged)
+                    outs = nxt
+                    continue
             for o in outs:
                 if o.kind != 'normal':
                     nxt.append(o)
@@ -77,6 +86,56 @@ class Executor(Evaluator):
                 nxt += self.ex(s, o.st)
             outs = nxt
         return outs
+
+    MERGE_AT_LOOPS = True
+
+    def merge_states(self, sts):
+        """one state equivalent to the disjunction of the given ones (ite over their path guards); None if not mergeable"""
+        try:
+            n = min(len(s.pc) for s in sts)
+            k = 0
+            while k < n and all(s.pc[k].eq(sts[0].pc[k]) for s in sts):
+                k += 1
+            guards = [z3.And(s.pc[k:]) if len(s.pc) > k else z3.BoolVal(True) for s in sts]
+            m = sts[0].copy()
+            m.pc = list(sts[0].pc[:k]) + [z3.Or(guards)]
+            names = set(sts[0].locals)
+            for s in sts[1:]:
+                names &= set(s.locals)
+            m.locals = {}
+            for name in names:
+                vals = [s.locals[name] for s in sts]
+                if all(v.ty == vals[0].ty and len(v.t) == len(vals[0].t) and all(a.eq(b) for a, b in zip(v.t, vals[0].t)) and v.py is vals[0].py for v in vals):
+                    m.locals[name] = vals[0]
+                    continue
+                if any(isinstance(v.ty, TFunc) for v in vals):
+                    return None
+                v = vals[-1]
+                for g, val in reversed(list(zip(guards[:-1], vals[:-1]))):
+                    v = ite(g, val, v)
+                m.locals[name] = v
+            keys = set()
+            for s in sts:
+                keys |= set(s.heap.d)
+            for key in keys:
+                terms = [s.heap.get(key) for s in sts]
+                if all(all(a.eq(b) for a, b in zip(t, terms[0])) for t in terms):
+                    m.heap.set(key, terms[0])
+                    continue
+                cur = list(terms[-1])
+                for g, t in reversed(list(zip(guards[:-1], terms[:-1]))):
+                    cur = [z3.If(g, a, b) for a, b in zip(t, cur)]
+                m.heap.set(key, cur)
+            seen = set()
+            m.apps = []
+            for s in sts:
+                for a in s.apps:
+                    if a[2].get_id() not in seen:
+                        seen.add(a[2].get_id())
+                        m.apps.append(a)
+            return m
+        except TypeMismatch:
+            return None
 
     def ex(self, s, st):
         m = getattr(self, 'ex_' + type(s).__name__, None)
@@ -498,6 +557,7 @@ class Executor(Evaluator):
     def check_frame_against(self, modifies_l, h0, env0, st, label, keeps_epoch=False, has_effects=False):
         """obligations: every heap location not named in modifies_l has its h0 value in st.heap"""
         allowed = {}      # key -> list of allowed refs, or None for 'anything'
+        preds = {}        # key -> list of predicates on refs that grant permission
         if has_effects:
             for g in ('trace', 'shown', 'ui', 'ext'):
                 for n in trace.GROUPS[g]:
@@ -528,6 +588,23 @@ class Executor(Evaluator):
                     clsq, fname = fq.rsplit('.', 1)
                     decl = self.W.field_decl(self.W.cls_by_name(clsq), fname)
                     allowed[('f', decl[0])] = None
+                    continue
+                if kind == 'owned':
+                    fq = ast.unparse(e.args[0])
+                    clsq, fname = fq.rsplit('.', 1)
+                    decl = self.W.field_decl(self.W.cls_by_name(clsq), fname)
+                    owner = self.S.eval(e.args[1], cx)
+                    cdecl = self.W.field_decl(self.W.cls_by_name('core.wl.object.ObjectBase'), 'connection')
+                    conn_arr = h0.get(h0.field_key(cdecl[0], cdecl[1]))[0]
+                    preds.setdefault(('f', decl[0]), []).append(lambda r, conn_arr=conn_arr, owner=owner: z3.Select(conn_arr, r) == owner.term)
+                    continue
+                if kind == 'lists_of':
+                    d = self.S.eval(e.args[0], cx)
+                    has = z3.Select(h0.get(h0.dict_has_key(d.ty.k))[0], d.term)
+                    val = z3.Select(h0.get(h0.dict_val_keys(d.ty.k, d.ty.v)[0])[0], d.term)
+                    kk = z3.Const(fresh_name('kk'), d.ty.k.comps()[0])
+                    for key in [h0.list_len_key()] + h0.list_arr_keys(d.ty.v.elem):
+                        preds.setdefault(key, []).append(lambda r, has=has, val=val, kk=kk: z3.Exists([kk], z3.And(z3.Select(has, kk), z3.Select(val, kk) == r)))
                     continue
                 target = self.S.eval(e.args[0], cx)
                 if kind == 'list':
@@ -574,7 +651,8 @@ class Executor(Evaluator):
             for x, y in zip(a0, a1):
                 if x.eq(y):
                     continue
-                goal = z3.ForAll([r], z3.Implies(z3.And([h0.is_alloc(r)] + [r != t for t in refs]), z3.Select(x, r) == z3.Select(y, r)))
+                goal = z3.ForAll([r], z3.Implies(z3.And([h0.is_alloc(r)] + [r != t for t in refs] + [z3.Not(p(r)) for p in preds.get(key, [])]),
+                                                 z3.Select(x, r) == z3.Select(y, r)))
                 self.oblige(st, goal, label + '.' + '.'.join(str(p) for p in key[1:]), 'frame')
 
     def ex_While(self, s, st):
@@ -795,6 +873,9 @@ class Executor(Evaluator):
                 pt = {}
             dead = False
             for pn, pv in list(bound.items()):
+                if isinstance(pv.ty, TOpt) and pn in pt and isinstance(pt[pn], TAny) and not self.feasible(s.pc + [pv.t[0]]):
+                    bound[pn] = SV(pv.ty.inner, pv.t[1:])       # known not to be None on this path
+                    continue
                 if isinstance(pv.ty, TOpt) and pn in pt and not isinstance(pt[pn], (TOpt, TAny)):
                     s, bound[pn] = self.unwrap_opt(s, pv)
                     if s is None:
